@@ -446,6 +446,21 @@ Theorem C16_wrappers_maximize_repaired :
 Proof. exact maximize_fixed_value. Qed.
 Print Assumptions C16_wrappers_maximize_repaired.
 
+(* the call SciPy receives: L_BFGS_B hands every keyword on under its own name and value (no renaming, rescaling or defaulting) and sets
+   approx_grad = 1 exactly when no gradient is given; LS passes method and loss and exactly the two options xtol = tol,
+   max_nfev = int(maxit); minimize/maximize pass method, jac and the keywords unchanged *)
+Theorem C16_wrappers_call_translation :
+  (forall grad kwargs, lb_options (lbfgsb_call grad kwargs) = kwargs /\ lb_fprime_given (lbfgsb_call grad kwargs) = grad /\
+                       (lb_approx_grad (lbfgsb_call grad kwargs) = 1%Z <-> grad = false) /\
+                       (lb_approx_grad (lbfgsb_call grad kwargs) = 0%Z <-> grad = true)) /\
+  (forall method loss tol maxit, lsc_method (ls_translate method loss tol maxit) = method /\ lsc_loss (ls_translate method loss tol maxit) = loss /\
+                                 map fst (lsc_options (ls_translate method loss tol maxit)) = ls_option_names /\
+                                 map snd (lsc_options (ls_translate method loss tol maxit)) = [inject_Z (Qround.Qfloor maxit); tol]) /\
+  (forall method grad kwargs, mz_method (minimize_call method grad kwargs) = method /\ mz_jac_given (minimize_call method grad kwargs) = grad /\
+                              mz_options (minimize_call method grad kwargs) = kwargs).
+Proof. exact wrappers_call_translation. Qed.
+Print Assumptions C16_wrappers_call_translation.
+
 (* L_BFGS_B: success = 1 iff warnflag = 0; for warnflag other than 0, 1 the message is SciPy's task string *)
 Theorem C16_wrappers_lbfgsb : forall (wf : Z) (task : string),
   (fst (lbfgsb_status wf task) = 1%Z <-> wf = 0%Z) /\
@@ -627,13 +642,7 @@ Example C16_convergence_nonvacuous :
   pos_def Qc 0%Qc Qcplus Qcmult phiQ 2 (qmatvec A) (qc (1 # 2)) /\
   exists x, q_cgls_solve (qmatvec A) (qmattvec 2 A) b (qc (1 # 2)) x0 7 0%Qc = (x, 2%nat) /\
             qnormsq (ne_residual 2 A b (qc (1 # 2)) x) = 0%Qc.
-Proof.
-  cbn zeta. split; [ | split].
-  - apply (matrix_adjoint_pair Qc 0%Qc 1%Qc Qcplus Qcmult Qcminus Qcopp Qcrt 2 (qmat [[1; 0]; [0; 2]; [1; 1]]%Q)). repeat constructor.
-  - apply (pos_def_of_positive_shift Qc 0%Qc 1%Qc Qcplus Qcmult Qcminus Qcopp qc_leb phiQ embedding_Qc).
-    apply Rnot_le_lt. intros H. rewrite <- phiQ_0 in H. apply phiQ_leb in H. vm_compute in H. discriminate.
-  - eexists. split; [vm_compute; reflexivity|]. vm_compute. reflexivity.
-Qed.
+Proof. exact convergence_nonvacuous_ex. Qed.
 Print Assumptions C16_convergence_nonvacuous.
 
 (* FINDING (CGLS.solve|normx-clause-returns-unconverged-point; PCGLS has the same line): the second disjunct of
@@ -660,13 +669,7 @@ Example C16_monotone_nonvacuous :
     (0 < phiQ (delta_of Qc 0%Qc Qcplus Qcmult (qmatvec A) (qc (1 # 2))
                  (cg_p Qc (cgls_iter Qc 0%Qc Qcplus Qcmult Qcminus Qcdiv qc_leb qc_eps (qmatvec A) (qmattvec 2 A) (qc (1 # 2)) j
                              (cgls_init Qc 0%Qc Qcplus Qcmult Qcminus (qmatvec A) (qmattvec 2 A) b (qc (1 # 2)) x0)))))%R.
-Proof.
-  cbn zeta. split; [ | split].
-  - apply (matrix_adjoint_pair Qc 0%Qc 1%Qc Qcplus Qcmult Qcminus Qcopp Qcrt 2 (qmat [[1; 0]; [0; 2]; [1; 1]]%Q)). repeat constructor.
-  - exact phiQ_div.
-  - intros j Hj. apply Rnot_le_lt. intros H. rewrite <- phiQ_0 in H. apply phiQ_leb in H.
-    destruct j as [|[|j]]; [vm_compute in H; discriminate | vm_compute in H; discriminate | lia].
-Qed.
+Proof. exact monotone_nonvacuous_ex. Qed.
 Print Assumptions C16_monotone_nonvacuous.
 
 (* ------------------------------------------------------------------------------------------------
@@ -684,11 +687,5 @@ Example C16_nonvacuous :
   (exists x, q_cgls_solve (qmatvec A) (qmattvec 2 A) b shift x0 10 (qc (1 # 1000000)) = (x, 2%nat) /\
              qnormsq (ne_residual 2 A b shift x) = 0%Qc /\ x <> x0) /\
   q_pg_map (qmatvec (qmat ((1%Q :: nil) :: nil))) (qmattvec 1 (qmat ((1%Q :: nil) :: nil))) (qvec (2%Q :: nil)) (q_prox (PxL1 1)) 1%Qc (qvec (1%Q :: nil)) = qvec (1%Q :: nil).
-Proof.
-  cbn zeta. split; [ | split].
-  - apply (matrix_linear_op Qc 0%Qc 1%Qc Qcplus Qcmult Qcminus Qcopp Qcrt 2 (qmat [[1; 0]; [0; 2]; [1; 1]]%Q)).
-    repeat constructor.
-  - eexists. split; [vm_compute; reflexivity|]. split; [vm_compute; reflexivity | vm_compute; discriminate].
-  - vm_compute. reflexivity.
-Qed.
+Proof. exact nonvacuous_ex. Qed.
 Print Assumptions C16_nonvacuous.
